@@ -296,13 +296,16 @@ def run(F, rep):
                        fits, detail="%s: %s" % (pdesc, why), site=pe[i].site, key="C06-Q8 | %s | capacity test before insert" % f.key)
             if ret and ret[0] == "None" and name in pullers:
                 # last cond before return must be "heap is empty" == true
-                conds = [e for e in pe if e.kind == "cond"]
+                # after the last wait (the lock is held from there to the return) the path tests "heap is empty" and takes the
+                # true arm; unrelated branches (diagnostics) in between do not matter
+                lw = max([j for j, e in enumerate(pe) if e.kind == "wait"], default=-1)
+                conds = [e for e in pe[lw + 1:] if e.kind == "cond"]
                 ok = False
-                if conds:
-                    e = conds[-1]
+                for e in conds:
                     ce = e.data[0]
-                    ok = _truth(e) is True and contains(ce, lambda x: isinstance(x, tuple) and x[0] == "call" and x[1].endswith("::is_empty")) \
-                        and contains(ce, lambda x: field_is(x, R["heap"]))
+                    if _truth(e) is True and contains(ce, lambda x: isinstance(x, tuple) and x[0] == "call" and x[1].endswith("::is_empty")) \
+                            and contains(ce, lambda x: field_is(x, R["heap"])):
+                        ok = True
                 rep.ob("C06-Q6", "%s: end-of-stream (None) only when the heap is empty" % name, ok, detail=pdesc,
                        site=rets[-1].site, key="C06-Q6 | %s | None only when empty" % f.key)
             # writes of closed
